@@ -261,7 +261,9 @@ func runC05(t *testing.T, p *Plan) *Outcome {
 				return
 			}
 			// attribute keyspace steps to the owning op (the task itself or a client task's server conn)
-			if i, ok := taskOp[tk]; ok && isLockSite(tk.Site) {
+			if tk.Bookkeeping {
+				// the accounting pass after the handler is not part of the command's effect
+			} else if i, ok := taskOp[tk]; ok && isLockSite(tk.Site) {
 				ksSteps[i] = append(ksSteps[i], s.Step)
 			} else if isLockSite(tk.Site) || tk.Site == "conn.read" {
 				// server-side task of a TCP client: attribute to that client's current op
